@@ -284,3 +284,37 @@ def lnorm(h):
         h.check('largest-magnitude', 'r == max(%s)' % ', '.join(a + ['0']) if n == 1 else 'r == max(%s)' % ', '.join(a), r=r, w=w)
     else:
         h.check('number-of-non-zero-entries', 'r == ' + ' + '.join('(1 if w[%d] != 0 else 0)' % i for i in range(n)), r=r, w=w)
+
+
+@contract('C18/ess-extrema', ['C18', 'C19'], F + '::ess_minimum', samples=200)
+def ess_extrema(h):
+    """minimum / maximum / ptp of f over the sample points and their essential versions over the SUPPORT (points with
+    weight > tol): the least / greatest value of f over exactly those points, ptp their difference (f arbitrary)"""
+    n = h.choice('n', [1, 2, 3])
+    which = h.choice('function', ['minimum', 'maximum', 'ptp', 'ess_minimum', 'ess_maximum', 'ess_ptp'])
+    f = h.fn('F', ret='real')
+    x = h.vec('x', n)
+    fx = [h.call(f, h.ev('x[%d]' % i, x=x)) for i in range(n)]
+    env = {'f%d' % i: v for i, v in enumerate(fx)}
+    if which.startswith('ess_'):
+        w, tol = h.vec('w', n), h.real('tol')
+        env.update(w=w, tol=tol)
+        h.assume(' or '.join('w[%d] > tol' % i for i in range(n)), **env)        # a non-empty support
+        r = h.call(h.get(F + '::' + which), f, x, w, tol)
+        sel = ['w[%d] > tol' % i for i in range(n)]
+    else:
+        r = h.call(h.get(F + '::' + which), f, x)
+        sel = ['True'] * n
+    lo = ' and '.join('(not (%s) or m <= f%d)' % (sel[i], i) for i in range(n)) + ' and (' + ' or '.join('((%s) and m == f%d)' % (sel[i], i) for i in range(n)) + ')'
+    hi = ' and '.join('(not (%s) or M >= f%d)' % (sel[i], i) for i in range(n)) + ' and (' + ' or '.join('((%s) and M == f%d)' % (sel[i], i) for i in range(n)) + ')'
+    base = which.replace('ess_', '')
+    if base == 'minimum':
+        h.check('least-value-of-f-over-the-selected-points', lo.replace('m ', 'r ').replace('m =', 'r ='), r=r, **env)
+    elif base == 'maximum':
+        h.check('greatest-value-of-f-over-the-selected-points', hi.replace('M ', 'r ').replace('M =', 'r ='), r=r, **env)
+    else:
+        # r = M - m for the extrema M, m: there are selected points i, j with r = f_i - f_j and every selected point lies between
+        pairs = ' or '.join('((%s) and (%s) and r == f%d - f%d and %s)' % (
+            sel[i], sel[j], i, j, ' and '.join('(not (%s) or (f%d <= f%d and f%d >= f%d))' % (sel[q], q, i, q, j) for q in range(n)))
+            for i in range(n) for j in range(n))
+        h.check('difference-of-the-extreme-values-of-f-over-the-selected-points', pairs, r=r, **env)
